@@ -150,12 +150,12 @@ pub fn stamps(f: &F) -> Vec<String> {
 
 pub fn truths() -> Vec<Vec<String>> {
     let s = |xs: &[&str]| xs.iter().map(|x| x.to_string()).collect::<Vec<_>>();
-    vec![s(&[]), s(&["1"]), s(&["0.5", "0.9"]), s(&[".5", "1.0", "007"]), s(&["1", "2", "3", "4", "5", "6", "7", "8", "9"])]
+    vec![s(&[]), s(&["1"]), s(&["0.5", "0.9"]), s(&[".5", "1.0", "007"]), s(&["1.", ".0"]), s(&["1", "2", "3", "4", "5", "6", "7", "8", "9"])]
 }
 
 pub fn budgets() -> Vec<Option<Vec<String>>> {
     let s = |xs: &[&str]| Some(xs.iter().map(|x| x.to_string()).collect::<Vec<_>>());
-    vec![None, s(&[]), s(&["0.5"]), s(&["0.5", ".75", "0.4"]), s(&["1", "1", "1", "0.25"]), s(&["0", "1", "0", "1", "0", "1", "0", "1", "0.5"])]
+    vec![None, s(&[]), s(&["0.5"]), s(&["0.5", ".75", "0.4"]), s(&["1", "1", "1", "0.25"]), s(&[".5", "0.75", "1."]), s(&["."]), s(&["0", "1", "0", "1", "0", "1", "0", "1", "0.5"])]
 }
 
 pub fn tops(f: &F) -> Vec<LTerm> {
